@@ -66,6 +66,17 @@ Theorem C18_rows_in_priority_order : forall p a d evs s,
 Proof. exact pops_sorted. Qed.
 Print Assumptions C18_rows_in_priority_order.
 
+(* a bar queued LATE after a bar that was popped must not inherit the pop priority (a live bar above the popped rows would be
+   rewritten over them): the hand-over record made by the same flush holds the priority the bar had BEFORE it was given its pop
+   priority, and that record is what a late Add uses (C17_late_successor_pushed_at_once) *)
+Theorem C18_popped_bar_hands_over_its_old_place : forall pm am dm evs s b nrows rmf s',
+  run (init_cst pm am dm) evs = Some s ->
+  step s (CT_FLUSHBAR b 1 nrows rmf false false) = Some s' -> cycle_err s = false ->
+  successors b (queue s) = [] -> pop_mode s = true ->
+  lookup b (released s') = Some (prio_of s b) /\ prio_of s' b = pop_prio s.
+Proof. exact flush_pop_handover. Qed.
+Print Assumptions C18_popped_bar_hands_over_its_old_place.
+
 Example C18_nonvacuous :
   exists s, run (init_cst true true false)
     [CT_OP; CT_ADD 0 0 0 2 None None false false true 0 false; HM_PUSH 0 true 0 false 0;
